@@ -449,7 +449,7 @@ CHECKS["C19"] = {
                  "with an independent reference unifier; differential across registration orders",
     "design_ref": "DESIGN.md 2/C19",
     "parts": [{"name": "resolve", "exe": "c19_resolve", "sources": ["c19_resolve.cpp"], "shards": 16}],
-    "rule": "Variadic pool: 10 candidates whose last parameter is a tail pattern ((TS<T>, *TS<T>), (TS<T>, *TS<U>), (S, *S), (S, *R), (TSL<T,N>, *TSL<T,N>), (TSL<T,N>, *TSL<U,M>), (TS<Int>, *TS<Int>), (*TS<T>)) next to fixed two-parameter ones, every argument tuple of length 1..3 over 6 types: each tail argument must agree with the bindings of the fixed parameters, does not bind its siblings, and ranks once per consumed argument. Bundle-inheritance pool: scalar bundles Animal <- Dog <- Puppy, Animal <- Cat; 9 candidates ((TS<T>,TS<T>), (TS<T>,TS<U>), (S,S), (S,R), (TSL<T,N>,TS<T>), (TSS<T>,TS<T>), (TS<T>,TSS<T>), (TS<Animal>,TS<U>), (TS<Dog>,TS<U>)) x 81 argument pairs: a derived bundle is accepted for a variable already bound to its base and for a concrete base parameter (ranked by inheritance distance), never the reverse, never below TSS. candidates are built at run time as erased OperatorImpl records from a mini-AST: 14 one-parameter patterns (TS<Int>, TS<Float>, TS<T>, "
+    "rule": "Depth pool: candidates in which one variable occurs at two nesting depths ((V, TSL<V,N>), (TS<T>, TSL<TS<T>,N>)) next to flat competitors ((SIGNAL, L), (TS<Int>, L), (S, R), (TS<T>, TSL<TS<U>,N>)); every family of <= 3 x 36 argument pairs is resolved twice, as written and with the two parameters of every candidate (and the arguments) exchanged: both must select the corresponding candidate or fail alike (specificity does not depend on the order in which parameters are listed). Variadic pool: 10 candidates whose last parameter is a tail pattern ((TS<T>, *TS<T>), (TS<T>, *TS<U>), (S, *S), (S, *R), (TSL<T,N>, *TSL<T,N>), (TSL<T,N>, *TSL<U,M>), (TS<Int>, *TS<Int>), (*TS<T>)) next to fixed two-parameter ones, every argument tuple of length 1..3 over 6 types: each tail argument must agree with the bindings of the fixed parameters, does not bind its siblings, and ranks once per consumed argument. Bundle-inheritance pool: scalar bundles Animal <- Dog <- Puppy, Animal <- Cat; 9 candidates ((TS<T>,TS<T>), (TS<T>,TS<U>), (S,S), (S,R), (TSL<T,N>,TS<T>), (TSS<T>,TS<T>), (TS<T>,TSS<T>), (TS<Animal>,TS<U>), (TS<Dog>,TS<U>)) x 81 argument pairs: a derived bundle is accepted for a variable already bound to its base and for a concrete base parameter (ranked by inheritance distance), never the reverse, never below TSS. candidates are built at run time as erased OperatorImpl records from a mini-AST: 14 one-parameter patterns (TS<Int>, TS<Float>, TS<T>, "
             "TS<U>, two whole-time-series variables, TSL<TS<Int>,2>, TSL<TS<T>,N>, TSL<S,N>, TSS<T>, TSD<K,V>, TSD<Int,V>, SIGNAL) and 9 two-parameter "
             "ones ((Int,Int), (T,T), (T,U), (S,S), (S,R), (Int,T), (TSL<T,N>,TSL<T,N>), (TSL<T,N>,TSL<T,M>), (Int,Float)), each with an output pattern; "
             "arguments from 15 concrete types (TS<Int|Float|Str>, TSL of sizes 2/3/dynamic, TSS, two TSDs, SIGNAL, three bundle types of one shape - two named, one structural - and a list of one of them). Families with a size-variable candidate are also resolved with a caller-pinned SIZE hint (2, 3), which binds the candidate's first size variable before matching; one candidate spells its size variable differently from the others. Every family of 1..K candidates "
